@@ -6,8 +6,8 @@ the tree that the specification's precedence levels and left associativity presc
 
 `WF` is the specification: a tree is precedence-respecting when the left operand of a binary operator
 binds at least as tightly as the operator (left associativity), the right operand strictly tighter,
-the operand of a unary operator tighter than every binary operator, and the indexed expression
-tightest. `parse_toks` (completeness): every such tree is what the parser returns on its tokens, for
+the operand of a unary operator tighter than every binary operator, and the indexed, sliced,
+field-accessed or type-asserted expression tightest. `parse_toks` (completeness): every such tree is what the parser returns on its tokens, for
 every tree of every size. `parse_sound`: whatever the parser returns is such a tree and its tokens
 are the consumed input. Together: the parser computes THE precedence-respecting reading.
 -/
@@ -32,7 +32,7 @@ def hp : List Tok → Nat
 /-- how tightly the root of a tree binds, seen from the left -/
 def llvl : E → Nat
   | .bin o _ _ => o.prec
-  | .index _ _ => indexPrec
+  | .index _ _ | .sliceAll _ | .sliceTo _ _ | .sliceFrom _ _ | .slice _ _ _ | .dot _ _ | .assert _ _ => indexPrec
   | _ => 9
 
 /-- the weakest binding power on the right spine: a following operator that binds tighter than this
@@ -49,6 +49,12 @@ def WF : E → Prop
   | .bin o l r => WF l ∧ WF r ∧ o.prec ≤ llvl l ∧ o.prec ≤ rlvl l ∧ o.prec < llvl r
   | .group e => WF e
   | .index l i => WF l ∧ WF i ∧ indexPrec ≤ llvl l ∧ indexPrec ≤ rlvl l
+  | .sliceAll l => WF l ∧ indexPrec ≤ llvl l ∧ indexPrec ≤ rlvl l
+  | .sliceTo l b => WF l ∧ WF b ∧ indexPrec ≤ llvl l ∧ indexPrec ≤ rlvl l
+  | .sliceFrom l a => WF l ∧ WF a ∧ indexPrec ≤ llvl l ∧ indexPrec ≤ rlvl l
+  | .slice l a b => WF l ∧ WF a ∧ WF b ∧ indexPrec ≤ llvl l ∧ indexPrec ≤ rlvl l
+  | .dot l _ => WF l ∧ indexPrec ≤ llvl l ∧ indexPrec ≤ rlvl l
+  | .assert l _ => WF l ∧ indexPrec ≤ llvl l ∧ indexPrec ≤ rlvl l
 
 theorem prec_pos (o : BinOp) : 1 ≤ o.prec ∧ o.prec ≤ 6 := by cases o <;> simp [BinOp.prec]
 
@@ -57,6 +63,36 @@ theorem llvl_pos (e : E) : 0 < llvl e := by
   exact (prec_pos _).1
 
 /-! ### more fuel never changes an answer -/
+
+theorem bracket_mono {pe pe' : List Tok → Option (E × List Tok)} {lp lp' : E → List Tok → Option (E × List Tok)}
+    (hpe : ∀ ts x, pe ts = some x → pe' ts = some x) (hlp : ∀ l ts x, lp l ts = some x → lp' l ts = some x)
+    (left : E) (r : List Tok) (x : E × List Tok) (h : bracket pe lp left r = some x) : bracket pe' lp' left r = some x := by
+  unfold bracket at h ⊢
+  split at h
+  · exact hlp _ _ _ h
+  · rename_i r1 hne
+    split at h
+    · rename_i b r2 hb
+      simp only [hpe _ _ hb]
+      exact hlp _ _ _ h
+    · cases h
+  · split at h
+    · rename_i i r' hi; simp only [hpe _ _ hi]; exact hlp _ _ _ h
+    · rename_i a r' ha; simp only [hpe _ _ ha]; exact hlp _ _ _ h
+    · rename_i a r1 hne ha
+      simp only [hpe _ _ ha]
+      split at h
+      · rename_i b r2 hb; simp only [hpe _ _ hb]; exact hlp _ _ _ h
+      · cases h
+    · cases h
+
+theorem dotted_mono {lp lp' : E → List Tok → Option (E × List Tok)} (hlp : ∀ l ts x, lp l ts = some x → lp' l ts = some x)
+    (left : E) (r : List Tok) (x : E × List Tok) (h : dotted lp left r = some x) : dotted lp' left r = some x := by
+  unfold dotted at h ⊢
+  split at h
+  · exact hlp _ _ _ h
+  · exact hlp _ _ _ h
+  · cases h
 
 theorem mono_step (f : Nat) :
     (∀ p ts x, parseExpr f p ts = some x → parseExpr (f + 1) p ts = some x) ∧
@@ -93,9 +129,12 @@ theorem mono_step (f : Nat) :
       · split at h
         · rename_i hp
           simp only [hp, if_true]
-          split at h
-          · rename_i e r' he; rw [ihP _ _ _ he]; exact ihL _ _ _ _ h
-          · simp at h
+          exact bracket_mono (fun ts x => ihP 0 ts x) (fun l ts x => ihL p l ts x) _ _ _ h
+        · rename_i hp; simp only [hp, if_false]; exact h
+      · split at h
+        · rename_i hp
+          simp only [hp, if_true]
+          exact dotted_mono (fun l ts x => ihL p l ts x) _ _ _ h
         · rename_i hp; simp only [hp, if_false]; exact h
       · exact h
 
@@ -116,6 +155,58 @@ theorem loop_stop (f p : Nat) (e : E) (rest : List Tok) (h : hp rest ≤ p) : lo
   | nil => rfl
   | cons t r =>
     cases t <;> simp only [hp, Tok.prec] at h <;> simp <;> omega
+
+/-! ### what follows `[` and `.` -/
+
+/-- the tokens of an expression never start with `:` or `]` -/
+theorem toks_head (e : E) : ∃ t tl, toks e = t :: tl ∧ t ≠ .colon ∧ t ≠ .rbracket := by
+  induction e with
+  | atom n => exact ⟨_, _, rfl, by simp, by simp⟩
+  | un u e _ => cases u <;> exact ⟨_, _, rfl, by simp, by simp⟩
+  | group e _ => exact ⟨_, _, rfl, by simp, by simp⟩
+  | bin o l r ihl _ => obtain ⟨t, tl, h, h1, h2⟩ := ihl; exact ⟨t, _, by rw [toks, h]; rfl, h1, h2⟩
+  | index l i ihl _ => obtain ⟨t, tl, h, h1, h2⟩ := ihl; exact ⟨t, _, by rw [toks, h]; rfl, h1, h2⟩
+  | sliceAll l ihl => obtain ⟨t, tl, h, h1, h2⟩ := ihl; exact ⟨t, _, by rw [toks, h]; rfl, h1, h2⟩
+  | sliceTo l b ihl _ => obtain ⟨t, tl, h, h1, h2⟩ := ihl; exact ⟨t, _, by rw [toks, h]; rfl, h1, h2⟩
+  | sliceFrom l a ihl _ => obtain ⟨t, tl, h, h1, h2⟩ := ihl; exact ⟨t, _, by rw [toks, h]; rfl, h1, h2⟩
+  | slice l a b ihl _ _ => obtain ⟨t, tl, h, h1, h2⟩ := ihl; exact ⟨t, _, by rw [toks, h]; rfl, h1, h2⟩
+  | dot l k ihl => obtain ⟨t, tl, h, h1, h2⟩ := ihl; exact ⟨t, _, by rw [toks, h]; rfl, h1, h2⟩
+  | assert l k ihl => obtain ⟨t, tl, h, h1, h2⟩ := ihl; exact ⟨t, _, by rw [toks, h]; rfl, h1, h2⟩
+
+variable {pe : List Tok → Option (E × List Tok)} {lp : E → List Tok → Option (E × List Tok)}
+
+theorem bracket_index (left i : E) (rest : List Tok) (h : pe (toks i ++ .rbracket :: rest) = some (i, .rbracket :: rest)) :
+    bracket pe lp left (toks i ++ .rbracket :: rest) = lp (.index left i) rest := by
+  obtain ⟨t, tl, ht, h1, _⟩ := toks_head i
+  rw [ht] at h ⊢
+  unfold bracket
+  cases t <;> simp_all
+
+theorem bracket_sliceTo (left b : E) (rest : List Tok) (h : pe (toks b ++ .rbracket :: rest) = some (b, .rbracket :: rest)) :
+    bracket pe lp left (.colon :: (toks b ++ .rbracket :: rest)) = lp (.sliceTo left b) rest := by
+  obtain ⟨t, tl, ht, _, h2⟩ := toks_head b
+  rw [ht] at h ⊢
+  unfold bracket
+  cases t <;> simp_all
+
+theorem bracket_sliceFrom (left a : E) (rest : List Tok)
+    (h : pe (toks a ++ .colon :: .rbracket :: rest) = some (a, .colon :: .rbracket :: rest)) :
+    bracket pe lp left (toks a ++ .colon :: .rbracket :: rest) = lp (.sliceFrom left a) rest := by
+  obtain ⟨t, tl, ht, h1, _⟩ := toks_head a
+  rw [ht] at h ⊢
+  unfold bracket
+  cases t <;> simp_all
+
+theorem bracket_slice (left a b : E) (rest : List Tok)
+    (ha : pe (toks a ++ .colon :: (toks b ++ .rbracket :: rest)) = some (a, .colon :: (toks b ++ .rbracket :: rest)))
+    (hb : pe (toks b ++ .rbracket :: rest) = some (b, .rbracket :: rest)) :
+    bracket pe lp left (toks a ++ .colon :: (toks b ++ .rbracket :: rest)) = lp (.slice left a b) rest := by
+  obtain ⟨t, tl, ht, h1, _⟩ := toks_head a
+  obtain ⟨u, ul, hu, _, h2⟩ := toks_head b
+  rw [ht] at ha ⊢
+  rw [hu] at ha hb ⊢
+  unfold bracket
+  cases t <;> cases u <;> simp_all
 
 /-! ### completeness: every precedence-respecting tree is what the parser returns on its tokens -/
 
@@ -187,7 +278,92 @@ theorem complete (e : E) : WF e → ∀ (f p : Nat) (rest : List Tok) (x : E × 
     simp only [hp', if_true]
     have inner : parseExpr (f + 1 + 2 * (toks i).length) 0 (toks i ++ Tok.rbracket :: rest) = some (i, Tok.rbracket :: rest) :=
       ihi hwi (f + 1) 0 _ (i, _) (llvl_pos i) (by simp [hp, Tok.prec]) (loop_stop f 0 i _ (by simp [hp, Tok.prec]))
-    rw [mono_parse (by omega) inner]
+    rw [bracket_index l i rest (mono_parse (by omega) inner)]
+    exact mono_loop (by omega) h
+  | sliceAll l ihl =>
+    intro hw f p rest x hp' _ h
+    obtain ⟨hwl, hll, hrl⟩ := hw
+    simp only [llvl] at hp'
+    simp only [toks, List.length_append, List.length_cons, List.length_nil, List.append_assoc, List.cons_append, List.nil_append]
+    have e1 : f + 2 * ((toks l).length + (0 + 1 + 1 + 1)) = (f + 6) + 2 * (toks l).length := by omega
+    rw [e1]
+    refine ihl hwl _ p _ x (by omega) (by simp only [hp, Tok.prec]; exact hrl) ?_
+    show loop ((f + 5) + 1) p l _ = some x
+    unfold loop
+    simp only [hp', if_true, bracket]
+    exact mono_loop (by omega) h
+  | sliceTo l b ihl ihb =>
+    intro hw f p rest x hp' _ h
+    obtain ⟨hwl, hwb, hll, hrl⟩ := hw
+    simp only [llvl] at hp'
+    simp only [toks, List.length_append, List.length_cons, List.length_nil, Nat.zero_add, List.nil_append, List.append_assoc, List.cons_append]
+    have e1 : f + 2 * ((toks l).length + ((toks b).length + 1 + 1 + 1)) = (f + 2 * (toks b).length + 6) + 2 * (toks l).length := by omega
+    rw [e1]
+    refine ihl hwl _ p _ x (by omega) (by simp only [hp, Tok.prec]; exact hrl) ?_
+    show loop ((f + 2 * (toks b).length + 5) + 1) p l _ = some x
+    unfold loop
+    simp only [hp', if_true]
+    have inner : parseExpr (f + 1 + 2 * (toks b).length) 0 (toks b ++ Tok.rbracket :: rest) = some (b, Tok.rbracket :: rest) :=
+      ihb hwb (f + 1) 0 _ (b, _) (llvl_pos b) (by simp [hp, Tok.prec]) (loop_stop f 0 b _ (by simp [hp, Tok.prec]))
+    rw [bracket_sliceTo l b rest (mono_parse (by omega) inner)]
+    exact mono_loop (by omega) h
+  | sliceFrom l a ihl iha =>
+    intro hw f p rest x hp' _ h
+    obtain ⟨hwl, hwa, hll, hrl⟩ := hw
+    simp only [llvl] at hp'
+    simp only [toks, List.length_append, List.length_cons, List.length_nil, Nat.zero_add, List.nil_append, List.append_assoc, List.cons_append]
+    have e1 : f + 2 * ((toks l).length + ((toks a).length + (0 + 1 + 1) + 1)) = (f + 2 * (toks a).length + 6) + 2 * (toks l).length := by omega
+    rw [e1]
+    refine ihl hwl _ p _ x (by omega) (by simp only [hp, Tok.prec]; exact hrl) ?_
+    show loop ((f + 2 * (toks a).length + 5) + 1) p l _ = some x
+    unfold loop
+    simp only [hp', if_true]
+    have inner : parseExpr (f + 1 + 2 * (toks a).length) 0 (toks a ++ Tok.colon :: Tok.rbracket :: rest) = some (a, Tok.colon :: Tok.rbracket :: rest) :=
+      iha hwa (f + 1) 0 _ (a, _) (llvl_pos a) (by simp [hp, Tok.prec]) (loop_stop f 0 a _ (by simp [hp, Tok.prec]))
+    rw [bracket_sliceFrom l a rest (mono_parse (by omega) inner)]
+    exact mono_loop (by omega) h
+  | slice l a b ihl iha ihb =>
+    intro hw f p rest x hp' _ h
+    obtain ⟨hwl, hwa, hwb, hll, hrl⟩ := hw
+    simp only [llvl] at hp'
+    simp only [toks, List.length_append, List.length_cons, List.length_nil, Nat.zero_add, List.nil_append, List.append_assoc, List.cons_append]
+    have e1 : f + 2 * ((toks l).length + ((toks a).length + ((toks b).length + 1 + 1) + 1)) =
+        (f + 2 * (toks a).length + 2 * (toks b).length + 6) + 2 * (toks l).length := by omega
+    rw [e1]
+    refine ihl hwl _ p _ x (by omega) (by simp only [hp, Tok.prec]; exact hrl) ?_
+    show loop ((f + 2 * (toks a).length + 2 * (toks b).length + 5) + 1) p l _ = some x
+    unfold loop
+    simp only [hp', if_true]
+    have innerA : parseExpr (f + 1 + 2 * (toks a).length) 0 (toks a ++ Tok.colon :: (toks b ++ Tok.rbracket :: rest)) =
+        some (a, Tok.colon :: (toks b ++ Tok.rbracket :: rest)) :=
+      iha hwa (f + 1) 0 _ (a, _) (llvl_pos a) (by simp [hp, Tok.prec]) (loop_stop f 0 a _ (by simp [hp, Tok.prec]))
+    have innerB : parseExpr (f + 1 + 2 * (toks b).length) 0 (toks b ++ Tok.rbracket :: rest) = some (b, Tok.rbracket :: rest) :=
+      ihb hwb (f + 1) 0 _ (b, _) (llvl_pos b) (by simp [hp, Tok.prec]) (loop_stop f 0 b _ (by simp [hp, Tok.prec]))
+    rw [bracket_slice l a b rest (mono_parse (by omega) innerA) (mono_parse (by omega) innerB)]
+    exact mono_loop (by omega) h
+  | dot l k ihl =>
+    intro hw f p rest x hp' _ h
+    obtain ⟨hwl, hll, hrl⟩ := hw
+    simp only [llvl] at hp'
+    simp only [toks, List.length_append, List.length_cons, List.length_nil, List.append_assoc, List.cons_append, List.nil_append]
+    have e1 : f + 2 * ((toks l).length + (0 + 1 + 1)) = (f + 4) + 2 * (toks l).length := by omega
+    rw [e1]
+    refine ihl hwl _ p _ x (by omega) (by simp only [hp, Tok.prec]; exact hrl) ?_
+    show loop ((f + 3) + 1) p l _ = some x
+    unfold loop
+    simp only [hp', if_true, dotted]
+    exact mono_loop (by omega) h
+  | assert l k ihl =>
+    intro hw f p rest x hp' _ h
+    obtain ⟨hwl, hll, hrl⟩ := hw
+    simp only [llvl] at hp'
+    simp only [toks, List.length_append, List.length_cons, List.length_nil, List.append_assoc, List.cons_append, List.nil_append]
+    have e1 : f + 2 * ((toks l).length + (0 + 1 + 1 + 1 + 1)) = (f + 8) + 2 * (toks l).length := by omega
+    rw [e1]
+    refine ihl hwl _ p _ x (by omega) (by simp only [hp, Tok.prec]; exact hrl) ?_
+    show loop ((f + 7) + 1) p l _ = some x
+    unfold loop
+    simp only [hp', if_true, dotted]
     exact mono_loop (by omega) h
 
 /-- **completeness**: on the tokens of any precedence-respecting tree, followed by anything that
@@ -278,20 +454,75 @@ theorem sound_step (f : Nat) :
         simp only [hp, Tok.prec] at hr
         split at h
         · rename_i hpo
+          have hll : indexPrec ≤ llvl l := by
+            have := rlvl_llvl l; simp only [indexPrec] at hr ⊢; omega
+          have post : ∀ (e' : E) (r' : List Tok), WF e' → llvl e' = indexPrec → rlvl e' = 9 → loop n p e' r' = some x →
+              Good p (toks e' ++ r') x := by
+            intro e' r' we hl' hr' hh
+            exact ihL p e' r' x hp7 we (by have := hp_le r'; omega) (by omega) hh
+          unfold bracket at h
           split at h
-          · rename_i i r' he
-            obtain ⟨w, heq, _, _, _⟩ := ihP _ _ _ (by omega) he
-            simp only at w heq
-            have hll : indexPrec ≤ llvl l := by
-              have := rlvl_llvl l; simp only [indexPrec] at hr ⊢; omega
-            have g := ihL p (.index l i) r' x hp7 ⟨hwl, w, hll, hr⟩ (by have := hp_le r'; simp only [rlvl]; omega) (by simp only [llvl]; exact hpo) h
-            simpa [toks, heq] using g
-          · simp at h
+          · rename_i r2
+            have g := post (.sliceAll l) r2 ⟨hwl, hll, hr⟩ rfl rfl h
+            simpa [toks] using g
+          · rename_i r1 hne
+            split at h
+            · rename_i b r2 hb
+              obtain ⟨w, heq, _, _, _⟩ := ihP _ _ _ (by omega) hb
+              simp only at w heq
+              have g := post (.sliceTo l b) r2 ⟨hwl, w, hll, hr⟩ rfl rfl h
+              simpa [toks, heq] using g
+            · cases h
+          · split at h
+            · rename_i i r' hi
+              obtain ⟨w, heq, _, _, _⟩ := ihP _ _ _ (by omega) hi
+              simp only at w heq
+              have g := post (.index l i) r' ⟨hwl, w, hll, hr⟩ rfl rfl h
+              simpa [toks, heq] using g
+            · rename_i a r' ha
+              obtain ⟨w, heq, _, _, _⟩ := ihP _ _ _ (by omega) ha
+              simp only at w heq
+              have g := post (.sliceFrom l a) r' ⟨hwl, w, hll, hr⟩ rfl rfl h
+              simpa [toks, heq] using g
+            · rename_i a r1 hne ha
+              obtain ⟨wa, heqa, _, _, _⟩ := ihP _ _ _ (by omega) ha
+              simp only at wa heqa
+              split at h
+              · rename_i b r2 hb
+                obtain ⟨wb, heqb, _, _, _⟩ := ihP _ _ _ (by omega) hb
+                simp only at wb heqb
+                have g := post (.slice l a b) r2 ⟨hwl, wa, wb, hll, hr⟩ rfl rfl h
+                simpa [toks, heqa, heqb] using g
+              · cases h
+            · cases h
         · rename_i hpo
           simp at h
           subst h
           exact ⟨hwl, rfl, by simpa [hp, Tok.prec] using hr, by simp only [hp, Tok.prec]; omega, hl⟩
-      · rename_i hno hnb
+      · rename_i r
+        simp only [hp, Tok.prec] at hr
+        split at h
+        · rename_i hpo
+          have hll : indexPrec ≤ llvl l := by
+            have := rlvl_llvl l; simp only [indexPrec] at hr ⊢; omega
+          have post : ∀ (e' : E) (r' : List Tok), WF e' → llvl e' = indexPrec → rlvl e' = 9 → loop n p e' r' = some x →
+              Good p (toks e' ++ r') x := by
+            intro e' r' we hl' hr' hh
+            exact ihL p e' r' x hp7 we (by have := hp_le r'; omega) (by omega) hh
+          unfold dotted at h
+          split at h
+          · rename_i t r'
+            have g := post (.assert l t) r' ⟨hwl, hll, hr⟩ rfl rfl h
+            simpa [toks] using g
+          · rename_i k r'
+            have g := post (.dot l k) r' ⟨hwl, hll, hr⟩ rfl rfl h
+            simpa [toks] using g
+          · cases h
+        · rename_i hpo
+          simp at h
+          subst h
+          exact ⟨hwl, rfl, by simpa [hp, Tok.prec] using hr, by simp only [hp, Tok.prec]; omega, hl⟩
+      · rename_i hno hnb hnd
         simp at h
         subst h
         refine ⟨hwl, rfl, hr, ?_, hl⟩
@@ -301,6 +532,7 @@ theorem sound_step (f : Nat) :
           cases t <;> simp [hp, Tok.prec]
           · exact absurd rfl (hno _ _)
           · exact absurd rfl (hnb _)
+          · exact absurd rfl (hnd _)
 
 /-- **soundness**: a tree the parser returns respects the precedence levels, and its tokens are
 exactly the input consumed; what follows does not continue the expression -/
@@ -332,7 +564,7 @@ theorem reading_unique (e₁ e₂ : E) (h₁ : WF e₁) (h₂ : WF e₂) (h : to
 def lvl : E → Nat
   | .bin o _ _ => o.prec
   | .un _ _ => unaryPrec
-  | .index _ _ => indexPrec
+  | .index _ _ | .sliceAll _ | .sliceTo _ _ | .sliceFrom _ _ | .slice _ _ _ | .dot _ _ | .assert _ _ => indexPrec
   | _ => 9
 
 /-- docs/spec.md: operators of higher precedence bind first; binary operators of the same precedence
@@ -343,12 +575,24 @@ def Spec : E → Prop
   | .bin o l r => Spec l ∧ Spec r ∧ o.prec ≤ lvl l ∧ o.prec < lvl r
   | .group e => Spec e
   | .index l i => Spec l ∧ Spec i ∧ indexPrec ≤ lvl l
+  | .sliceAll l => Spec l ∧ indexPrec ≤ lvl l
+  | .sliceTo l b => Spec l ∧ Spec b ∧ indexPrec ≤ lvl l
+  | .sliceFrom l a => Spec l ∧ Spec a ∧ indexPrec ≤ lvl l
+  | .slice l a b => Spec l ∧ Spec a ∧ Spec b ∧ indexPrec ≤ lvl l
+  | .dot l _ => Spec l ∧ indexPrec ≤ lvl l
+  | .assert l _ => Spec l ∧ indexPrec ≤ lvl l
 
 theorem spec_rlvl (e : E) (h : Spec e) : min (rlvl e) 8 = min (lvl e) 8 := by
   induction e with
   | atom n => rfl
   | group e _ => rfl
   | index l i _ _ => rfl
+  | sliceAll l _ => rfl
+  | sliceTo l b _ _ => rfl
+  | sliceFrom l a _ _ => rfl
+  | slice l a b _ _ _ => rfl
+  | dot l k _ => rfl
+  | assert l k _ => rfl
   | un u e ih =>
     obtain ⟨he, hl⟩ := h
     have a : rlvl (.un u e) = min unaryPrec (rlvl e) := rfl
@@ -388,6 +632,12 @@ theorem spec_iff_wf (e : E) : Spec e ↔ WF e := by
       | un _ _ => simp [lvl, unaryPrec]
       | group _ => simp [lvl]
       | index _ _ => simp [lvl, indexPrec]
+      | sliceAll _ => simp [lvl, indexPrec]
+      | sliceTo _ _ => simp [lvl, indexPrec]
+      | sliceFrom _ _ => simp [lvl, indexPrec]
+      | slice _ _ _ => simp [lvl, indexPrec]
+      | dot _ _ => simp [lvl, indexPrec]
+      | assert _ _ => simp [lvl, indexPrec]
   | bin o l r ihl ihr =>
     simp only [Spec, WF, ihl, ihr]
     have ho := (prec_pos o).2
@@ -412,6 +662,72 @@ theorem spec_iff_wf (e : E) : Spec e ↔ WF e := by
       have el := spec_rlvl l (ihl.mpr wl)
       refine ⟨wl, wi, ?_⟩
       simp only [unaryPrec, indexPrec] at *; omega
+  | sliceAll l ihl =>
+    simp only [Spec, WF, ihl]
+    have hl := llvl_lvl l
+    constructor
+    · rintro ⟨wl, h⟩
+      have el := spec_rlvl l (ihl.mpr wl)
+      refine ⟨wl, ?_, ?_⟩ <;> (simp only [unaryPrec, indexPrec] at *; omega)
+    · rintro ⟨wl, h1, h2⟩
+      have el := spec_rlvl l (ihl.mpr wl)
+      refine ⟨wl, ?_⟩
+      simp only [unaryPrec, indexPrec] at *; omega
+  | sliceTo l b ihl ihb =>
+    simp only [Spec, WF, ihl, ihb]
+    have hl := llvl_lvl l
+    constructor
+    · rintro ⟨wl, wi, h⟩
+      have el := spec_rlvl l (ihl.mpr wl)
+      refine ⟨wl, wi, ?_, ?_⟩ <;> (simp only [unaryPrec, indexPrec] at *; omega)
+    · rintro ⟨wl, wi, h1, h2⟩
+      have el := spec_rlvl l (ihl.mpr wl)
+      refine ⟨wl, wi, ?_⟩
+      simp only [unaryPrec, indexPrec] at *; omega
+  | sliceFrom l a ihl iha =>
+    simp only [Spec, WF, ihl, iha]
+    have hl := llvl_lvl l
+    constructor
+    · rintro ⟨wl, wi, h⟩
+      have el := spec_rlvl l (ihl.mpr wl)
+      refine ⟨wl, wi, ?_, ?_⟩ <;> (simp only [unaryPrec, indexPrec] at *; omega)
+    · rintro ⟨wl, wi, h1, h2⟩
+      have el := spec_rlvl l (ihl.mpr wl)
+      refine ⟨wl, wi, ?_⟩
+      simp only [unaryPrec, indexPrec] at *; omega
+  | slice l a b ihl iha ihb =>
+    simp only [Spec, WF, ihl, iha, ihb]
+    have hl := llvl_lvl l
+    constructor
+    · rintro ⟨wl, wa, wb, h⟩
+      have el := spec_rlvl l (ihl.mpr wl)
+      refine ⟨wl, wa, wb, ?_, ?_⟩ <;> (simp only [unaryPrec, indexPrec] at *; omega)
+    · rintro ⟨wl, wa, wb, h1, h2⟩
+      have el := spec_rlvl l (ihl.mpr wl)
+      refine ⟨wl, wa, wb, ?_⟩
+      simp only [unaryPrec, indexPrec] at *; omega
+  | dot l k ihl =>
+    simp only [Spec, WF, ihl]
+    have hl := llvl_lvl l
+    constructor
+    · rintro ⟨wl, h⟩
+      have el := spec_rlvl l (ihl.mpr wl)
+      refine ⟨wl, ?_, ?_⟩ <;> (simp only [unaryPrec, indexPrec] at *; omega)
+    · rintro ⟨wl, h1, h2⟩
+      have el := spec_rlvl l (ihl.mpr wl)
+      refine ⟨wl, ?_⟩
+      simp only [unaryPrec, indexPrec] at *; omega
+  | assert l k ihl =>
+    simp only [Spec, WF, ihl]
+    have hl := llvl_lvl l
+    constructor
+    · rintro ⟨wl, h⟩
+      have el := spec_rlvl l (ihl.mpr wl)
+      refine ⟨wl, ?_, ?_⟩ <;> (simp only [unaryPrec, indexPrec] at *; omega)
+    · rintro ⟨wl, h1, h2⟩
+      have el := spec_rlvl l (ihl.mpr wl)
+      refine ⟨wl, ?_⟩
+      simp only [unaryPrec, indexPrec] at *; omega
 
 /-- **C01, precedence and associativity**: the parser returns `e` iff `e` is the reading the
 specification prescribes for the tokens consumed -/
@@ -433,6 +749,17 @@ example : parse [.op .minus, .atom 0, .lbracket, .atom 1, .rbracket, .op .star, 
 -- a or b and c == d < e + f * g: every level once
 example : parse [.atom 0, .op .or, .atom 1, .op .and, .atom 2, .op .eq, .atom 3, .op .lt, .atom 4, .op .plus, .atom 5, .op .star, .atom 6] =
     some (.bin .or (.atom 0) (.bin .and (.atom 1) (.bin .eq (.atom 2) (.bin .lt (.atom 3) (.bin .plus (.atom 4) (.bin .star (.atom 5) (.atom 6)))))), []) := by decide
+-- -m.k[1:][0] is -(((m.k)[1:])[0]); x.(T) + 1 is (x.(T)) + 1
+example : parse [.op .minus, .atom 0, .dot, .atom 1, .lbracket, .atom 2, .colon, .rbracket, .lbracket, .atom 3, .rbracket] =
+    some (.un .neg (.index (.sliceFrom (.dot (.atom 0) 1) (.atom 2)) (.atom 3)), []) := by decide
+example : parse [.atom 0, .dot, .lparen, .ty 7, .rparen, .op .plus, .atom 1] =
+    some (.bin .plus (.assert (.atom 0) 7) (.atom 1), []) := by decide
+-- a[:] , a[:n+1], a[i*2:j]
+example : parse [.atom 0, .lbracket, .colon, .rbracket] = some (.sliceAll (.atom 0), []) := by decide
+example : parse [.atom 0, .lbracket, .colon, .atom 1, .op .plus, .atom 2, .rbracket] =
+    some (.sliceTo (.atom 0) (.bin .plus (.atom 1) (.atom 2)), []) := by decide
+example : parse [.atom 0, .lbracket, .atom 1, .op .star, .atom 2, .colon, .atom 3, .rbracket] =
+    some (.slice (.atom 0) (.bin .star (.atom 1) (.atom 2)) (.atom 3), []) := by decide
 -- a non-example: (a - (b - c)) without the parentheses is not a reading
 example : ¬ Spec (.bin .minus (.atom 0) (.bin .minus (.atom 1) (.atom 2))) := by simp [Spec, lvl]
 
